@@ -106,9 +106,38 @@ impl URef {
 
 /// Oracles 1-3 on what one worker produced for [from,to).
 /// Returns (oracle name, detail) of the first broken clause.
+/// Same showdowns position by position: the statement fixes the order of
+/// positions, not the order of showdowns inside one position.
+fn same_per_position(got: &[(u8, u8, u64)], want: &[(u8, u8, u64)]) -> bool {
+    if got.len() != want.len() {
+        return false;
+    }
+    if got.windows(2).any(|w| (w[0].0, w[0].1) > (w[1].0, w[1].1)) {
+        return false;
+    }
+    let mut a = got.to_vec();
+    let mut b = want.to_vec();
+    a.sort();
+    b.sort();
+    a == b
+}
+
 pub fn check_window(eff: &[Out], from: Pos, to: Pos, u: &URef) -> Option<(String, String)> {
     let want = u.window(from, to);
     let mut i = 0usize;
+    // fast path is exact equality with the unscoped run; if only the order inside
+    // positions differs, that is not a violation of the statement
+    let ey: Vec<(u8, u8, u64)> = eff
+        .iter()
+        .take_while(|o| matches!(o, Out::Yield { .. }))
+        .map(|o| match o {
+            Out::Yield { t, r, h } => (*t, *r, *h),
+            _ => unreachable!(),
+        })
+        .collect();
+    if ey.as_slice() != want && same_per_position(&ey, want) {
+        i = ey.len();
+    }
     // yields
     while i < eff.len() {
         match &eff[i] {
@@ -335,7 +364,7 @@ pub fn check_run(run: &Run, shared: Option<(&BuiltScen, &URef)>) -> C04Result {
             }
         }
         *res.probes.entry("chains_checked".into()).or_insert(0) += 1;
-        if cat != u.ys {
+        if cat != u.ys && !same_per_position(&cat, &u.ys) {
             res.key = Some((
                 "chain_conservation".into(),
                 format!("chain of {} scopes yields {} showdowns, the full run {}", run.specs.len(), cat.len(), u.ys.len()),
@@ -573,12 +602,26 @@ fn direct_window(built: &BuiltScen, u: &URef, from: Pos, to: Pos, polls: u32) ->
         Err(_) => return (0, false),
     };
     let mut calls = 0u64;
-    for w in want {
+    let mut exact = true;
+    let mut got: Vec<(u8, u8, u64)> = vec![];
+    for (i, w) in want.iter().enumerate() {
         calls += 1;
         match st.step() {
-            Out::Yield { t, r, h } if (t, r, h) == *w => {}
+            Out::Yield { t, r, h } => {
+                if exact && (t, r, h) != *w {
+                    // keep going: only the order inside a position may differ
+                    exact = false;
+                    got.extend_from_slice(&want[..i]);
+                }
+                if !exact {
+                    got.push((t, r, h));
+                }
+            }
             _ => return (calls, false),
         }
+    }
+    if !exact && !same_per_position(&got, want) {
+        return (calls, false);
     }
     for _ in 0..=polls {
         calls += 1;
@@ -598,7 +641,26 @@ fn consumer_window(built: &BuiltScen, u: &URef, from: Pos, to: Pos, kind: &str) 
     if !u.comparable(to) {
         return None;
     }
-    let want = u.window(from, to);
+    // reference for the order-sensitive consumers (last, nth, skip): the very same
+    // scoped evaluator drained by plain next() calls — its own order, which the
+    // window oracle relates to U position by position
+    let own: Vec<(u8, u8, u64)>;
+    let want: &[(u8, u8, u64)] = if matches!(kind, "last" | "nth7" | "skip_then_collect" | "last_by_value") {
+        let (outs, complete) = drain(&built.scen.flop, &built.ranges, &[(from, to)], u.window(from, to).len() as u64 + 8);
+        if !complete || !matches!(outs.last(), Some(Out::End)) {
+            return None; // the plain drain itself misbehaves: the window oracle reports that
+        }
+        own = outs
+            .iter()
+            .filter_map(|o| match o {
+                Out::Yield { t, r, h } => Some((*t, *r, *h)),
+                _ => None,
+            })
+            .collect();
+        &own
+    } else {
+        u.window(from, to)
+    };
     let mut st = match Stepper::new(&built.scen.flop, &built.ranges, &[(from, to)]) {
         Ok(s) => s,
         Err(m) => return Some(format!("construct: {m}")),
@@ -634,7 +696,7 @@ fn consumer_window(built: &BuiltScen, u: &URef, from: Pos, to: Pos, kind: &str) 
                     }
                     _ => {
                         let v: Vec<(u8, u8, u64)> = it.map(|s| dg(&s)).collect();
-                        (v != want_v).then(|| format!("collect() gave {} showdowns, the window has {}", v.len(), want_v.len()))
+                        (v != want_v && !same_per_position(&v, &want_v)).then(|| format!("collect() gave {} showdowns, the window has {}", v.len(), want_v.len()))
                     }
                 }
             });
@@ -658,7 +720,7 @@ fn consumer_window(built: &BuiltScen, u: &URef, from: Pos, to: Pos, kind: &str) 
         match kind {
             "collect" => {
                 let v: Vec<(u8, u8, u64)> = it.by_ref().take(cap).map(|s| dg(&s)).collect();
-                if v != want {
+                if v != want && !same_per_position(&v, want) {
                     return Err(format!("collect() gave {} showdowns, the window has {}", v.len(), want.len()));
                 }
             }
@@ -697,7 +759,7 @@ fn consumer_window(built: &BuiltScen, u: &URef, from: Pos, to: Pos, kind: &str) 
             _ => {
                 let k = want.len() / 2;
                 let v: Vec<(u8, u8, u64)> = it.by_ref().skip(k).take(cap).map(|s| dg(&s)).collect();
-                if v != want[k..] {
+                if v != want[k..] && !(k == 0 && same_per_position(&v, want)) {
                     return Err(format!("skip({k}) then collect gave {} showdowns, the window has {} left", v.len(), want.len() - k));
                 }
             }
